@@ -148,7 +148,14 @@ def oracle(spec, circuit, ctx, where, changed_counter=None):
                     f"output is {real!r}")
     # inverter shortcuts exist and invert
     for name in spec.get('shortcuts', ()):
-        blk = circuit.findblock('_not_' + name)
+        try:
+            blk = circuit.findblock('_not_' + name)
+        except KeyError:
+            # documented (docs/utils.rst, docs/simulation.rst): the shortcut is equivalent to
+            # edzed.Not('_not_NAME').connect(NAME), created when the circuit is finalized
+            raise core.Violation(
+                'shortcut-inverter-missing',
+                f"{where}: '_not_{name}' is used as an input but no block of that name exists")
         ctx.count('inverter_shortcuts')
         if blk.output != (not val[name]):
             raise core.Violation('shortcut-inverter', f"{where}: _not_{name} output {blk.output!r} "
@@ -366,7 +373,14 @@ def run_spec(spec, bursts, ctx, case):
 
     hooks.set_idle_callback(on_idle)
     try:
-        out = harness.run_sim(build, drive)
+        if spec.get('storage') == 'shelf':
+            # persistent storage of the shelve kind (has sync()/close(), blocking I/O); should
+            # the library flush it from a worker thread, the loop may wait for that thread
+            ctx.count('shelf_like_storage_runs')
+            out = harness.run_sim(build, drive, storage=harness.ShelfStorage(),
+                                  setup=lambda loop: setattr(loop, 'real_block', 0.5))
+        else:
+            out = harness.run_sim(build, drive)
     finally:
         hooks.set_idle_callback(None)
     if out['exc'] is not None and not isinstance(out['exc'], vloop.Deadlock):
@@ -567,6 +581,8 @@ def random_spec(rng):
     rng.shuffle(order)
     spec = {'sources': sources, 'fed': fed, 'cblocks': cblocks, 'order': order}
     spec['shortcuts'] = collect_shortcuts(cblocks)
+    if rng.random() < 0.15:
+        spec['storage'] = 'shelf'
     return spec
 
 
